@@ -258,6 +258,10 @@ class VariableTransformer:
         u : np.ndarray
             The variables transformed.
         """
+        # Clamp in the original space first: a log-transformed coordinate maps
+        # zero and negative inputs (just below a small positive lower bound)
+        # through log|x|, i.e. to the wrong side of the box
+        input = np.minimum(np.maximum(input, self.orig_lb), self.orig_ub)
         y = self.g(input)
         y = np.minimum(
             np.maximum(y, self.lb), self.ub
